@@ -3,8 +3,12 @@
     through the writer of a ValidatingPool in wound mode (Val/VPool.v: drip writer of
     [BlockSize] bytes, blockValidator.ValidateAsWound against [hashInfo.Groups[fileIndex]],
     filtered by AggregateWounds with MaxWoundSize), then compares the byte count with the size in
-    the container; the consumers (WoundsGuardian for fail-fast / AssertValid, WoundsWriter)
-    ignore healthy markers (kind CLOSED_FILE) and react to everything else.
+    the container and, when they differ, sends a FILE wound over the range between the two
+    (smaller bound first, whichever file is longer); the consumers (WoundsGuardian for
+    fail-fast / AssertValid, WoundsWriter) ignore healthy markers (kind CLOSED_FILE) and react to
+    everything else.  The content written may be anything (C04's theorems are about the signed
+    content; for other contents [validate_file] is proved equal to C05's [file_wounds],
+    Compose/ModelsAgreeValidateProofs.v, and compared with Go by the group "vfile").
     The hash of a block is the pair (weak hash, strong hash).  Definitions only;
     proofs in Sig/ValidateProofs.v. *)
 From Wharf Require Import Base.Prelude Val.Drip Val.VPool Sig.Sign Sig.SigFile Sig.HashInfo.
@@ -37,7 +41,12 @@ Section Validate.
                             (group_of groups fileIndex) ws in
     let written := N.of_nat (length (concat ws)) in
     aggregate maxWound None raw ++
-    (if written =? size then [] else [mkwound WFile (Z.of_nat fileIndex) (Z.of_N written) (Z.of_N size)]).
+    (if written =? size then []
+     else
+       (* woundStart, woundEnd := writtenBytes, file.Size; if woundStart > woundEnd { swap }
+          (repo commit ccb6315: the file on disk may be longer than the signed one) *)
+       let '(woundStart, woundEnd) := if size <? written then (size, written) else (written, size) in
+       [mkwound WFile (Z.of_nat fileIndex) (Z.of_N woundStart) (Z.of_N woundEnd)]).
 
   (** all files, in container order *)
   Fixpoint validate_files_from (groups : list (option (list (blockhash H)))) (fileIndex : nat)
